@@ -561,6 +561,12 @@ class Normaliser:
             # a row may carry a small dict of constants (keyword arguments kept in the table)
             return all(k is not None and isinstance(k, ast.Constant) for k in e.keys) and all(
                 isinstance(v, ast.Constant) for v in e.values)
+        if isinstance(e, ast.Call):
+            # a value object built from constants: datetime.timedelta(days=1)
+            fname = ast.unparse(e.func)
+            return fname in ('datetime.timedelta', 'timedelta', 'datetime.time', 'datetime.date', 'frozenset') \
+                and all(isinstance(a, ast.Constant) for a in e.args) \
+                and all(k.arg is not None and isinstance(k.value, ast.Constant) for k in e.keywords)
         return isinstance(e, (ast.Constant, ast.Name, ast.Attribute)) and not any(
             isinstance(x, ast.Call) for x in ast.walk(e))
 
